@@ -1,8 +1,10 @@
 (* C16 driver: line protocol over the extracted model (Gen/LookupInst.v).
    strings: dot-separated decimal code points, `e` = empty string; lists: comma separated, `_` = empty list; `-` = None.
-   L <q_shared 0|1> <A|F> <fs> <pkg> <seq>     fs/pkg: `-` or the raw sorted listing (list of relative paths); seq: list of class ids
-       -> R <res,...> S <spec,...> G <U|P|N per lookup: get_source (basename res)>       res: string or `-`
-   G <A|F> <fs> <pkg> <names>                  -> G <U|P|N,...>
+   L <q_shared 0|1> <A|F> <fs> <pkg> <seq>     fs: `-` or user search paths separated by `|`, each the RAW (unsorted) list of relative
+                                               paths; pkg: `-` or raw list; seq: list of class ids
+       -> R <res,...> S <spec,...> O <outcome,...> X <property outcome,...> F <flat 0|1> H <shadow_free 0|1,...>
+          res: string or `-`;  outcome: T (no template) | N:<name> (TemplateNotFound) | R:U<i>:<name> | R:P:<name>
+   G <A|F> <fs> <pkg> <names>                  -> G <U<i>|P|N,...>
    T <q_dt_only 0|1> <name> <cls id> <dt id>   -> T <1|0|N> <spec 1|0|N>
    E <allow> <q_unchecked> <dsdl> <lang> <ug> <uf> <ut> <post>     u*: list of name=int ; post: list of t:name=int | f:name=int
        -> ERR  |  OK g <name=tag,...> f <...> t <...>      tag: S | D | U<int> *)
@@ -23,10 +25,15 @@ let split2 c s = match String.index_opt s c with
   | None -> failwith ("bad pair " ^ s)
 let parse_entry s = let (a, b) = split2 ':' s in (parse_str a, parse_str b)
 let parse_tset = parse_opt (parse_list parse_str)
+let parse_roots s = if s = "-" then None else Some (List.map (parse_list parse_str) (String.split_on_char '|' s))
+let rec int_of_nat = function O -> 0 | S n -> 1 + int_of_nat n
+let show_origin = function OUserDir i -> "U" ^ string_of_int (int_of_nat i) | OPkg -> "P"
+let show_outcome = function
+  | NoTemplate -> "T" | NotFound n -> "N:" ^ show_str n | Rendered (o, n) -> "R:" ^ show_origin o ^ ":" ^ show_str n
 let parse_pol s = if s = "A" then FIND_ALL else FIND_FIRST
 let flag s = s = "1"
 let show_res = function None -> "-" | Some p -> show_str p
-let show_src = function None -> "N" | Some SrcFs -> "U" | Some SrcPkg -> "P"
+let show_src = function None -> "N" | Some o -> show_origin o
 let show_ob = function None -> "N" | Some true -> "1" | Some false -> "0"
 let parse_named s = let (a, b) = split2 '=' s in (parse_str a, n_of_int (int_of_string b))
 let parse_post s = let (k, r) = split2 ':' s in let (n, v) = parse_named r in
@@ -37,14 +44,17 @@ let show_coll c = show_list (fun (n, o) -> show_str n ^ "=" ^ show_owner o) c
 let handle line =
   match String.split_on_char ' ' (String.trim line) with
   | ["L"; q; pol; fs; pkg; seq] ->
-    let pol = parse_pol pol and fs = parse_tset fs and pkg = parse_tset pkg in
+    let pol = parse_pol pol and fs = parse_roots fs and pkg = parse_tset pkg in
     let cs = parse_list (fun t -> n_of_int (int_of_string t)) seq in
     let res = p_lookup_seq (flag q) pol fs pkg cs in
     let spec = p_spec_seq pol fs pkg cs in
-    let src = List.map (function None -> "N" | Some p -> show_src (p_get_source pol fs pkg (basename p))) res in
-    "R " ^ show_list show_res res ^ " S " ^ show_list show_res spec ^ " G " ^ show_list (fun x -> x) src
+    let out = p_rendered_seq (flag q) pol fs pkg cs in
+    let prop = List.map (p_spec_rendered pol fs pkg) cs in
+    let b x = if x then "1" else "0" in
+    "R " ^ show_list show_res res ^ " S " ^ show_list show_res spec ^ " O " ^ show_list show_outcome out
+    ^ " X " ^ show_list show_outcome prop ^ " F " ^ b (p_flatb pol fs pkg) ^ " H " ^ show_list (fun c -> b (p_shadow_freeb pol fs pkg c)) cs
   | ["G"; pol; fs; pkg; names] ->
-    let pol = parse_pol pol and fs = parse_tset fs and pkg = parse_tset pkg in
+    let pol = parse_pol pol and fs = parse_roots fs and pkg = parse_tset pkg in
     "G " ^ show_list (fun n -> show_src (p_get_source pol fs pkg (parse_str n))) (if names = "_" then [] else String.split_on_char ',' names)
   | ["T"; q; name; c; d] ->
     let v = { v_cls = n_of_int (int_of_string c); v_dt = n_of_int (int_of_string d) } in
